@@ -73,5 +73,9 @@ func init() {
 	ds = append(ds, directed{"out_sender", "btc", []string{"start", "cancel", "out_agreement", "restart", "otb", "tx_confirmed"}})
 	ds = append(ds, directed{"out_sender", "lbtc", []string{"start", "out_agreement", "cancel", "restart", "otb", "tx_confirmed"}})
 	ds = append(ds, directed{"in_receiver", "btc", []string{"request", "cancel", "restart", "otb", "tx_confirmed"}})
+	// the cancel message cannot be delivered (SendCancel --ActionFailed--> SwapCanceled): still nothing is paid later
+	ds = append(ds, directed{"out_sender", "btc", []string{"start", "send=fail:timeout", "out_agreement", "otb", "tx_confirmed", "restart"}})
+	ds = append(ds, directed{"out_sender", "lbtc", []string{"start", "out_agreement", "otb", "send=fail:cancel", "tx_confirmed", "restart", "tx_confirmed"}})
+	ds = append(ds, directed{"in_receiver", "lbtc", []string{"request", "send=fail:timeout", "otb", "tx_confirmed", "restart"}})
 	registerDirected(ds...)
 }
